@@ -733,6 +733,11 @@ def scan_lines(rng, thorough, kws=()):
     for k in kws:                                      # every row of tokInfoTable
         reqs += [b"z " + k + b" q\n", b"z _" + k + b" q\n", k + b"\n", b"z" + k + b"q\n", b"z " + k + k + b"\n", b"z " + k + b"x\n",
                  b"z " + k[:-1] + b" " + k[-1:] + b"\n", b"z " + k + b".5\n", b"z " + k + b"_\n.5\n"]
+    # comment / escape interplay: the escape character is not interpreted inside a comment, the next line is scanned
+    for tail in (b"--_", b"--_ ", b"--_ \t", b"-- c_", b"-- c _ ", b"-- c__", b"++_", b"++_  ", b"++ d_", b"++ d _ "):
+        reqs += [b"z " + tail + b"\nq w\n", tail + b"\nq\n", b"z _\n " + tail + b"\n_q\n"]
+    for tail in (b"+++_", b"+++_  ", b"+++ d_", b"+++ d _ "):
+        reqs += [tail + b"\nq w\n", b"z\n" + tail + b"\n_q\n"]
     ncore_raw = len(reqs)                              # what follows is random and runs under a time budget
     for _ in range(600 if not thorough else 6000):
         reqs.append(b" ".join(rng.choice(kws) if rng.random() < 0.8 else rng.choice((b"_", b"x", b"\"s\"", b".5", b"\n", b"_\n")) for _ in range(rng.randint(1, 6))) + b"\n")
